@@ -5,6 +5,7 @@ package main
 // message together with the application-level hand-over events the harness adds.
 
 import (
+	"context"
 	"fmt"
 	"hash/fnv"
 	"strings"
@@ -32,6 +33,94 @@ type poolTracker struct {
 	// accept, when non-nil, restricts the pool events that are recorded to the pools of the running
 	// scenario (late events of goroutines that an earlier scenario left behind are not part of its trace)
 	accept map[*pool.Pool]bool
+	// online copy of the ownership automaton, used ONLY to cut a scenario short once the trace already contains
+	// a violation (a corrupted pool makes the remaining operations hang until their watchdogs fire); the verdict
+	// on every trace is Coq's
+	state    map[int]byte // 0 live, 1 held, 2 releasing, 3 freed, 4 pooled
+	broken   bool
+	nBroken  int
+	badCtx   context.Context
+	badAbort context.CancelFunc
+	panics   []string
+}
+
+// note feeds one event to the online automaton (caller holds t.mu).
+func (t *poolTracker) note(e lcEvent) {
+	st := t.state[e.Obj]
+	bad := false
+	switch e.Kind {
+	case "Rel":
+		bad = st == 1 || st == 3 || st == 4
+		st = 3
+	case "Rec":
+		bad = st != 3
+		st = 4
+	case "Reacq":
+		bad = st != 4 || !e.OK
+		st = 0
+	case "Hold":
+		bad = st != 0
+		st = 1
+	case "Unhold":
+		bad = st != 1 || !e.OK
+		st = 0
+	case "AppRel":
+		bad = st >= 2
+		st = 2
+	}
+	t.state[e.Obj] = st
+	if bad && !t.broken {
+		t.broken = true
+		t.nBroken++
+		if t.badAbort != nil {
+			t.badAbort()
+		}
+	}
+}
+
+// notePanic records a panic of library code on a receive path of the current scenario (recovered by the
+// ProcessReceivedMessage wrapper the harness installs); the scenario is cut short like after a violation.
+func (t *poolTracker) notePanic(r interface{}) {
+	t.mu.Lock()
+	t.panics = append(t.panics, fmt.Sprint(r))
+	if !t.broken {
+		t.broken = true
+		t.nBroken++
+		if t.badAbort != nil {
+			t.badAbort()
+		}
+	}
+	t.mu.Unlock()
+}
+
+func (t *poolTracker) takePanics() []string {
+	t.mu.Lock()
+	defer t.mu.Unlock()
+	p := t.panics
+	t.panics = nil
+	return p
+}
+
+// bad reports whether the current scenario's trace already contains a violation.
+func (t *poolTracker) bad() bool {
+	t.mu.Lock()
+	defer t.mu.Unlock()
+	return t.broken
+}
+
+// ctx is cancelled as soon as the current scenario's trace contains a violation.
+func (t *poolTracker) ctx() context.Context {
+	t.mu.Lock()
+	defer t.mu.Unlock()
+	if t.badCtx == nil {
+		return context.Background()
+	}
+	return t.badCtx
+}
+
+func (t *poolTracker) add(e lcEvent) {
+	t.log = append(t.log, e)
+	t.note(e)
 }
 
 // scenario starts a new trace: the log and the numbering are reset; only events of the given pools are
@@ -41,6 +130,12 @@ func (t *poolTracker) scenario(pools ...*pool.Pool) {
 	t.log = nil
 	t.ids = map[*pool.Message]int{}
 	t.holds = map[*pool.Message]uint64{}
+	t.state = map[int]byte{}
+	t.broken = false
+	if t.badAbort != nil {
+		t.badAbort()
+	}
+	t.badCtx, t.badAbort = context.WithCancel(context.Background())
 	t.accept = nil
 	if len(pools) > 0 {
 		t.accept = map[*pool.Pool]bool{}
@@ -82,7 +177,7 @@ func trkAppRel(m *pool.Message) {
 }
 
 func newPoolTracker() *poolTracker {
-	return &poolTracker{ids: map[*pool.Message]int{}, holds: map[*pool.Message]uint64{}, relCh: map[*pool.Message]chan struct{}{}}
+	return &poolTracker{ids: map[*pool.Message]int{}, holds: map[*pool.Message]uint64{}, relCh: map[*pool.Message]chan struct{}{}, state: map[int]byte{}}
 }
 
 func (t *poolTracker) id(m *pool.Message) int {
@@ -100,7 +195,7 @@ func (t *poolTracker) Released(p *pool.Pool, m *pool.Message) {
 		t.mu.Unlock()
 		return
 	}
-	t.log = append(t.log, lcEvent{"Rel", t.id(m), true})
+	t.add(lcEvent{"Rel", t.id(m), true})
 	if ch, ok := t.relCh[m]; ok {
 		close(ch)
 		delete(t.relCh, m)
@@ -134,7 +229,7 @@ func (t *poolTracker) Recycled(p *pool.Pool, m *pool.Message) {
 		t.mu.Unlock()
 		return
 	}
-	t.log = append(t.log, lcEvent{"Rec", t.id(m), true})
+	t.add(lcEvent{"Rec", t.id(m), true})
 	t.mu.Unlock()
 }
 
@@ -146,7 +241,7 @@ func (t *poolTracker) Reacquired(p *pool.Pool, m *pool.Message) {
 		t.mu.Unlock()
 		return
 	}
-	t.log = append(t.log, lcEvent{"Reacq", t.id(m), ok})
+	t.add(lcEvent{"Reacq", t.id(m), ok})
 	t.mu.Unlock()
 }
 
@@ -169,7 +264,7 @@ func (t *poolTracker) Hold(m *pool.Message) {
 	d := msgDigest(m)
 	t.mu.Lock()
 	t.holds[m] = d
-	t.log = append(t.log, lcEvent{"Hold", t.id(m), true})
+	t.add(lcEvent{"Hold", t.id(m), true})
 	t.mu.Unlock()
 }
 
@@ -179,14 +274,14 @@ func (t *poolTracker) Unhold(m *pool.Message) {
 	t.mu.Lock()
 	same := t.holds[m] == d
 	delete(t.holds, m)
-	t.log = append(t.log, lcEvent{"Unhold", t.id(m), same})
+	t.add(lcEvent{"Unhold", t.id(m), same})
 	t.mu.Unlock()
 }
 
 // AppRel: the application is about to release m itself.
 func (t *poolTracker) AppRel(m *pool.Message) {
 	t.mu.Lock()
-	t.log = append(t.log, lcEvent{"AppRel", t.id(m), true})
+	t.add(lcEvent{"AppRel", t.id(m), true})
 	t.mu.Unlock()
 }
 
